@@ -380,7 +380,7 @@ impl LogInnerManager {
         }
         let (index_dto, file_index_len, pop_index_count) =
             self.get_file_index_by_log_index(end_index)?;
-        let empty_data = vec![0u8, 1];
+        let old_data_cursor = self.data_cursor;
         if pop_index_count > 0 {
             for _i in 0..pop_index_count {
                 self.indexs.pop();
@@ -389,7 +389,9 @@ impl LogInnerManager {
             self.index_file
                 .seek(SeekFrom::Start(self.index_cursor))
                 .await?;
-            self.index_file.write_all(&empty_data).await?;
+            // zero the popped index entries: none of their bytes may be read back as an entry
+            let empty_index = vec![0u8; file_index_len as usize];
+            self.index_file.write_all(&empty_index).await?;
             self.index_file
                 .seek(SeekFrom::Start(self.index_cursor))
                 .await?;
@@ -409,6 +411,8 @@ impl LogInnerManager {
         self.data_file
             .seek(SeekFrom::Start(self.data_cursor))
             .await?;
+        // zero the removed suffix: none of its bytes may be read back as an entry
+        let empty_data = vec![0u8; (old_data_cursor - self.data_cursor) as usize];
         self.data_file.write_all(&empty_data).await?;
         self.data_file
             .seek(SeekFrom::Start(self.data_cursor))
